@@ -174,6 +174,37 @@ def run(prog: Program, L: Ledger) -> None:
                     "restrict one operation in place (op.mask[2, :] = False): every other default-mask operation, also those built later, loses isotropy / volume preservation / symmetry with it", e_.name)
     if not ops_esc:
         L.ok("G6", "operations:own-parameters", "src/quansino/operations", f"{n_sh} candidates in the package")
+    # G4 (mask handling): a mask that is GIVEN is the mask that is used — whatever it contains (an all-False mask freezes the
+    # cell); only `mask is None` selects the default.  Finite case analysis of the constructor.
+    from ..cases import AV, CaseEval, Undecided
+
+    dop = prog.cls("DeformationOperation")
+    dinit = prog.lookup_method(dop, "__init__")
+    if dinit is None:
+        raise AnalysisError("DeformationOperation.__init__ missing")
+    dflat = flat(prog, dinit, dop)
+    mask_sts = [st for st in walk_no_nested(dflat.node) if isinstance(st, (ast.Assign, ast.AnnAssign)) and st.value is not None
+                and any(norm(t) == "self.mask" for t in (st.targets if isinstance(st, ast.Assign) else [st.target]))]
+    if not mask_sts:
+        raise AnalysisError("DeformationOperation.__init__: no assignment of self.mask")
+    for case, av in (("array", AV("arrayN", "mask")), ("None", AV("none", "mask"))):
+        ce = CaseEval({"mask": av})
+        try:
+            ce.run([st for st in dflat.body() if not (isinstance(st, ast.Expr) and isinstance(st.value, ast.Constant))])
+            got = ce.env.get("self.mask")
+        except Undecided as exc:
+            got = None
+            why = str(exc)
+        else:
+            why = ""
+        where_ = f"{dinit.module.relpath}:{mask_sts[0].lineno}"
+        if case == "array":
+            L.check(got is not None and got.origin == "mask", "G4", "DeformationOperation.__init__:given-mask", where_,
+                    f"with a mask given the operation stores `{got}` ({why or 'not the argument'}): whether the given mask is used depends on more than `mask is None` (e.g. on its content)",
+                    "mask = np.zeros((3, 3), bool) (freeze the cell): the operation falls back to the all-True default and deforms every component", norm(mask_sts[0])[:120])
+        else:
+            L.check(got is not None and got.origin != "mask", "G4", "DeformationOperation.__init__:default-mask", where_,
+                    f"without a mask the operation stores `{got}` ({why})", "operations built without a mask have no usable mask", norm(mask_sts[0])[:120])
     L.assume(asetab.validate_euler_rotate())
 
     ops = {c.name: c for c in prog.subclasses(prog.cls("BaseOperation"), strict=True)}
